@@ -115,6 +115,8 @@ class ConcRunner:
         tags = py_tags(o.get("tags"), None)
         if tags is not None:
             kw["tags"] = tags
+        if o.get("pass_sched"):
+            kw["args"] = (self.sched,)      # the usual way a callback gets hold of its scheduler
         if call != "once":
             if o.get("max_att", 0):
                 kw["max_attempts"] = o["max_att"]
